@@ -68,6 +68,11 @@ def analyse(ctx, key, f):
                                       for cl, leaf in T.cases(T.simp(hv))):
                 c = c.args[0]
                 unwrapped[id(s)] = c
+        # materialising the result of the map (list(self._map(...))) does not change the energies
+        if isinstance(c.func, ast.Name) and c.func.id in ('list', 'tuple', 'asarray', 'array') and len(c.args) == 1 and not c.keywords and isinstance(c.args[0], ast.Call) and \
+                self_call(c.args[0], '_map', sn):
+            c = c.args[0]
+            unwrapped[id(s)] = c
         if isinstance(c.func, ast.Name) and c.func.id in obj and len(c.args) == 1:
             evals.append((s, 'direct'))
         elif self_call(c, '_map', sn) and len(c.args) >= 2 and isinstance(c.args[0], ast.Name) and c.args[0].id in obj:
